@@ -293,8 +293,8 @@ impl NotModel {
         let owned = wax::any(pats.iter().map(|p| Glob::new(p).map(Glob::into_owned))).ok()?;
         Some(NotModel {
             any: owned,
-            exhaustive: e.and_then(|t| Dfa::new(&t).ok()),
-            nonexhaustive: n.and_then(|t| Dfa::new(&t).ok()),
+            exhaustive: e.and_then(|t| Dfa::new_search(&t).ok()),
+            nonexhaustive: n.and_then(|t| Dfa::new_search(&t).ok()),
             whole: pats.iter().map(|s| s.to_string()).collect(),
         })
     }
@@ -954,7 +954,7 @@ fn c03_partition_check(rep: &Report, c: &mut Counters, l: &Layer) {
     };
     let pats = l.patterns();
     let Ok(any) = wax::any(pats.iter().copied()) else { return };
-    let Ok(whole) = Dfa::new(any.verif_program_text()) else { return };
+    let Ok(whole) = Dfa::new_search(any.verif_program_text()) else { return };
     let never = Dfa::new("^[a&&b]$").unwrap();
     let e = nm.exhaustive.as_ref().unwrap_or(&never);
     let n = nm.nonexhaustive.as_ref().unwrap_or(&never);
